@@ -104,6 +104,10 @@ func (m *MTProto) makeAuthKey() error { // nolint don't know how to make method 
 	if nonceServer.Cmp(dhi.ServerNonce.Int) != 0 {
 		return errors.New("handshake: Wrong server_nonce")
 	}
+	if big.NewInt(0).SetBytes(dhi.DhPrime).Sign() == 0 {
+		// with a zero modulus big.Int.Exp computes the full power g^b, b having 2048 bits: it never ends
+		return errors.New("handshake: dh_prime is zero")
+	}
 
 	// this apparently is just part of diffie hellman, so just leave it as it is, hope that it will just work
 	_, gB, gAB := math.MakeGAB(dhi.G, big.NewInt(0).SetBytes(dhi.GA), big.NewInt(0).SetBytes(dhi.DhPrime))
